@@ -28,6 +28,8 @@ type StreamNet struct {
 	OnWrite func(conn int, dir string, off int, b []byte)
 	// OnDial is called with each new connection pair.
 	OnDial func(conn int, client, server *StreamConn)
+	// Latency, if set, returns how long bytes written in the given direction of a connection stay invisible to the reader.
+	Latency func(conn int, dir string) time.Duration
 	// OnClose is called when an end of a connection is closed by its owner (not under any lock).
 	OnClose func(conn int, clientSide bool)
 }
@@ -40,6 +42,7 @@ func NewStreamNet() *StreamNet {
 type pipe struct {
 	mu      sync.Mutex
 	buf     []byte
+	hidden  int // bytes at the end of buf still in flight (Latency): not yet readable
 	woff    int // stream offset of the next byte to be written (before tamper)
 	roff    int
 	wclosed bool // writer closed: reader sees EOF after draining
@@ -191,10 +194,10 @@ func (c *StreamConn) Read(b []byte) (int, error) {
 			p.mu.Unlock()
 			return 0, errors.New("connection reset by peer")
 		}
-		if len(p.buf) > 0 {
+		if vis := len(p.buf) - p.hidden; vis > 0 {
 			n := len(b)
-			if n > len(p.buf) {
-				n = len(p.buf)
+			if n > vis {
+				n = vis
 			}
 			if c.net.Chunk != nil {
 				if k := c.net.Chunk(c.id, c.rdir, p.roff); k > 0 && k < n {
@@ -204,14 +207,14 @@ func (c *StreamConn) Read(b []byte) (int, error) {
 			copy(b, p.buf[:n])
 			p.buf = p.buf[n:]
 			p.roff += n
-			if len(p.buf) > 0 {
+			if len(p.buf)-p.hidden > 0 {
 				kick(p.rwake)
 			}
 			kick(p.wwake)
 			p.mu.Unlock()
 			return n, nil
 		}
-		if p.wclosed {
+		if p.wclosed && len(p.buf) == 0 {
 			p.mu.Unlock()
 			return 0, io.EOF
 		}
@@ -269,7 +272,22 @@ func (c *StreamConn) Write(b []byte) (int, error) {
 			}
 			p.woff += n
 			p.buf = append(p.buf, chunk...)
-			kick(p.rwake)
+			var lat time.Duration
+			if c.net.Latency != nil {
+				lat = c.net.Latency(c.id, c.wdir)
+			}
+			if lat > 0 {
+				k := len(chunk)
+				p.hidden += k
+				time.AfterFunc(lat, func() {
+					p.mu.Lock()
+					p.hidden -= k
+					kick(p.rwake)
+					p.mu.Unlock()
+				})
+			} else {
+				kick(p.rwake)
+			}
 			p.mu.Unlock()
 			b = b[n:]
 			total += n
